@@ -1,22 +1,55 @@
-(** Property C02 — statements only. Each theorem is closed by [exact] of a lemma
-    proved elsewhere and followed by [Print Assumptions]. *)
-From CR Require Import Base Atomic Machine LinksFacts HeapFacts TraceFacts Local.
+(** Property C02 — values die at most once; no access after release or move-out. *)
+From Coq Require Import Permutation.
+From CR Require Import Base Atomic Machine LinksFacts HeapFacts TraceFacts TraceTotal Local StackBound
+  Termination Perm StdRc StdRefine Tokens InvDef InvLemmas ActBase ActHandles ActAdopt ActMove ActConsume
+  StepFrames StepPanic Purge GroupOps DropDec Group DropLast StepInv RunInv Consequences Common.
 Local Open Scope N_scope.
 
-Theorem C02_weak_drop_frees_once_partial :
+(** no step of a disciplined run reads or writes a released allocation, a
+    moved-out table or a moved-out value: the only way the machine halts is the
+    process abort of C16 *)
+Theorem C02_no_stale_access_step :
+  forall pri c, Inv_cfg c -> step_hyp c -> step_goal c (step pri c).
+Proof. exact step_inv. Qed.
+Print Assumptions C02_no_stale_access_step.
+
+Theorem C02_no_stale_access_run :
+  forall pri c c' s' h, steps pri c c' -> Inv_cfg c -> step_hyp c' ->
+  step pri c' = Halted s' h -> h = HAbort.
+Proof. exact steps_no_fault. Qed.
+Print Assumptions C02_no_stale_access_run.
+
+Theorem C02_no_stale_access_history :
+  forall fuel h, hist_ok fuel init_state h = true ->
+  Forall (fun r => match r with OHalt e => e = HAbort | _ => True end) (snd (run_history fuel init_state h)) /\
+  (forallb completed (snd (run_history fuel init_state h)) = true -> Inv (fst (run_history fuel init_state h)) []).
+Proof. exact run_history_from_init. Qed.
+Print Assumptions C02_no_stale_access_history.
+
+(** an allocation is released exactly when nothing needs it any more, hence at
+    most once: a released box has no Weak handle, no pending finish obligation
+    and no leaked obligation referring to it *)
+Theorem C02_released_iff_unneeded :
+  forall s k o b, Inv s k -> nth_error (heap_of s) o = Some b ->
+  (freed b = true <->
+   live b = false /\ W (sw_weak o) s k = 0 /\ n_after o k + n_fin o k + n_leak o (log s) = 0).
+Proof. exact freed_iff. Qed.
+Print Assumptions C02_released_iff_unneeded.
+
+(** handles to already-collected members that are dropped later, while the
+    members' values are being destroyed, are inert *)
+Theorem C02_inert_handle_drop :
+  forall pri s o k b,
+  Inv s (FDropStrong o :: k) -> getb (heap_of s) o = Ok b -> is_dead (strong b) = true ->
+  drop_strong pri s o = Ok (s, []) /\ Inv s k.
+Proof. exact drop_dead_inv. Qed.
+Print Assumptions C02_inert_handle_drop.
+
+Theorem C02_weak_drop_frees_exactly_at_zero :
   forall h o b h',
   getb h o = Ok b -> weak_drop h (Some o) = Ok h' ->
   0 < weak b /\
   h' = setb h o (if (weak b - 1 =? 0) then with_freed (with_weak b (weak b - 1)) true
                  else with_weak b (weak b - 1)).
 Proof. exact weak_drop_spec. Qed.
-Print Assumptions C02_weak_drop_frees_once_partial.
-
-Theorem C02_dead_handle_drop_touches_nothing_partial :
-  forall pri s k u o b,
-  getb (heap_of s) o = Ok b -> is_dead (strong b) = true ->
-  step pri {| st := s; stack := FDropStrong o :: k; unw := u |} =
-  Running {| st := s; stack := k; unw := u |}.
-Proof. exact step_drop_dead. Qed.
-Print Assumptions C02_dead_handle_drop_touches_nothing_partial.
-
+Print Assumptions C02_weak_drop_frees_exactly_at_zero.
